@@ -27,56 +27,66 @@ Proof.
   unfold all_rows. apply in_concat. exists rows. split; eapply nth_error_In; eassumption.
 Qed.
 
-(** (a)+(d) every read outside the three finding classes returns the part's own octets *)
+(** (a)+(d) every read outside the de-duplication class returns the part's
+    own octets, or reports an error — and then a backend did fail *)
 Lemma read_own_octets evs m k row s3on o :
   row_of (run key okey evs) m k = Some row ->
-  classify okey s3on (run key okey evs) row o = None ->
-  spec_read (r_own row) false (observed (rd (read_part s3on (run key okey evs) row o))).
+  classify okey (run key okey evs) row = None ->
+  spec_read (r_own row) (read_failed s3on (run key okey evs) row o)
+            (rd (read_part s3on (run key okey evs) row o)).
 Proof.
-  intros H C. destruct (row_of_ok _ _ _ _ H) as (R & O). simpl.
+  intros H C. destruct (row_of_ok _ _ _ _ H) as (R & O).
   set (w := run key okey evs) in *. clearbody w. clear H.
-  unfold row_ok in R. unfold classify in C. unfold read_part, rd.
+  unfold row_ok in R. unfold classify in C. unfold read_part, read_failed, rd, spec_read.
   destruct (r_blob row) as [id|]; [|exact R].
   destruct R as (b & Hb & _). rewrite Hb in *.
   destruct (form_is_own okey (b_form b) (r_own row)) eqn:F; simpl in C; [|discriminate].
   destruct (b_form b) as [c|kk]; simpl in F.
   - apply str_eqb_eq in F. exact F.
   - apply str_eqb_eq in F. subst kk.
-    destruct s3on; simpl in C; [|discriminate].
     destruct (okey (r_own row)) as [|c0 k0] eqn:EK; [exfalso; eapply okey_ne; eassumption|].
     rewrite <- EK in *.
-    destruct (take o) as [g o']. simpl in C. destruct g; [|discriminate]. simpl.
-    unfold has_obj in C. destruct (lookup (w_objs w) (okey (r_own row))) as [c|] eqn:L; [|discriminate].
+    destruct s3on; simpl; [|reflexivity].
+    destruct (take o) as [g o']. simpl. destruct g; simpl; [|reflexivity].
+    unfold has_obj. destruct (lookup (w_objs w) (okey (r_own row))) as [c|] eqn:L; simpl; [|reflexivity].
     symmetry. apply okey_inj. apply O. exact L.
 Qed.
 
-(** (d) what the classes return: a reader without S3, a failed GET and a
-    missing object all end in the empty string (never an error report);
-    no read outside DedupEncoding ever returns foreign octets *)
-Lemma fault_reads_empty w row s3on o c :
-  classify okey s3on w row o = Some c -> c <> DedupEncoding ->
-  rd (read_part s3on w row o) = [].
+(** (d) in EVERY state: when the backend fails for a read, the read is an error *)
+Lemma read_failure_is_error w row s3on o :
+  read_failed s3on w row o = true -> rd (read_part s3on w row o) = None.
 Proof.
-  unfold classify, read_part, rd. intros C N.
+  unfold read_failed, read_part, rd. intros F.
   destruct (r_blob row) as [id|]; [|discriminate].
   destruct (get_blob (w_blobs w) id) as [b|]; [|discriminate].
-  destruct (negb (form_is_own okey (b_form b) (r_own row))); [inversion C; congruence|].
   destruct (b_form b) as [x|kk]; [discriminate|].
-  destruct s3on; simpl in *; [|reflexivity].
   destruct kk as [|c0 k0]; [reflexivity|].
-  destruct (take o) as [g o']. simpl in *. destruct g; [|reflexivity]. simpl.
-  unfold has_obj in C. destruct (lookup (w_objs w) (c0 :: k0)); [discriminate|reflexivity].
+  destruct s3on; simpl in *; [|reflexivity].
+  destruct (take o) as [g o']. simpl in *. destruct g; [|reflexivity]. simpl in *.
+  unfold has_obj in F. destruct (lookup (w_objs w) (c0 :: k0)); [discriminate|reflexivity].
+Qed.
+
+(** ... and an error is reported ONLY when the backend failed *)
+Lemma error_only_if_failed evs m k row s3on o :
+  row_of (run key okey evs) m k = Some row ->
+  classify okey (run key okey evs) row = None ->
+  rd (read_part s3on (run key okey evs) row o) = None ->
+  read_failed s3on (run key okey evs) row o = true.
+Proof.
+  intros H C E. pose proof (read_own_octets _ _ _ _ s3on o H C) as S.
+  rewrite E in S. exact S.
 Qed.
 
 Lemma read_never_foreign evs m k row s3on o :
   row_of (run key okey evs) m k = Some row ->
-  classify okey s3on (run key okey evs) row o <> Some DedupEncoding ->
-  rd (read_part s3on (run key okey evs) row o) = r_own row \/
-  rd (read_part s3on (run key okey evs) row o) = [].
+  classify okey (run key okey evs) row <> Some DedupEncoding ->
+  rd (read_part s3on (run key okey evs) row o) = Some (r_own row) \/
+  rd (read_part s3on (run key okey evs) row o) = None.
 Proof.
-  intros H N. destruct (classify okey s3on (run key okey evs) row o) as [c|] eqn:C.
-  - right. eapply fault_reads_empty; [eassumption|congruence].
-  - left. exact (read_own_octets _ _ _ _ _ _ H C).
+  intros H N. destruct (classify okey (run key okey evs) row) as [[]|] eqn:C; [congruence|].
+  pose proof (read_own_octets _ _ _ _ s3on o H C) as S.
+  destruct (rd (read_part s3on (run key okey evs) row o)) as [s|]; [left|right; reflexivity].
+  simpl in S. congruence.
 Qed.
 
 (** (b) stored once, reference count = number of part rows using the blob *)
@@ -136,7 +146,7 @@ Lemma store_fault_falls_back w s3on p o d row w' o' d' :
   objs_ok okey (w_objs w) ->
   find_key (w_blobs w) (key (p_enc p) (p_content p)) = None ->
   store_part key okey s3on w p o d = (row, w', o', d') ->
-  rd (read_part s3on w' row []) = p_content p.
+  rd (read_part s3on w' row []) = Some (p_content p).
 Proof.
   intros O Fr E. unfold store_part in E.
   assert (New : forall f d0 r bl', store_blob key f (w_blobs w) (p_enc p) (p_content p) d0 = (r, bl') ->
